@@ -20,6 +20,7 @@ package main
 //     blocks is accepted and ends at the never-crashed replica's head hash and roots; a clean restart at a block
 //     boundary changes no observable.
 import (
+	"encoding/binary"
 	"encoding/json"
 	"fmt"
 	"math/rand"
@@ -44,39 +45,45 @@ type c09case struct {
 	Op    int    `json:"op"`              // -1: every swept operation
 	Cut   int    `json:"cut"`             // -1: cut points per tier policy
 	All   bool   `json:"all,omitempty"`   // every cut point of every swept operation
+	Hole  int    `json:"hole,omitempty"`  // 0: plain cut; 1 / 2: additionally the canonical hash of the head / of the height below is deleted (a database written before the head batch existed)
 	Class string `json:"class,omitempty"` // class of the write at the cut (informational)
 	What  string `json:"what,omitempty"`  // operation description (informational)
 }
 
 // vop is one operation of the victim replica.
 type vop struct {
-	kind    string // ins | reset | fsync
-	blk     *types.Block
-	resetTo uint64
-	fs      *fsPlan
-	swept   bool
-	base    *dbm.MemDB // store before the operation (swept ops only)
-	events  []crashdb.Event
-	h0      uint64          // head height before
-	allowed map[uint64]bool // property's allowed restart heights
-	post    string          // observables of the live victim after the operation
-	line    string
-	descr   string
+	kind     string // ins | reset | fsync
+	blk      *types.Block
+	resetTo  uint64
+	fs       *fsPlan
+	swept    bool
+	declOnly bool       // registered for continuations only, never performed by the victim
+	base     *dbm.MemDB // store before the operation (swept ops only)
+	events   []crashdb.Event
+	h0       uint64          // head height before
+	allowed  map[uint64]bool // property's allowed restart heights
+	post     string          // observables of the live victim after the operation
+	line     string
+	descr    string
 }
 
 type scen struct {
-	c      *hx.Ctx
-	cs     c09case
-	w      *chainfx.World
-	attach bool
-	vkey   int
-	ops    []*vop
-	known  map[common.Hash]*types.Block
-	target []*types.Block // chain of the never-crashed replica (by height order)
-	onTgt  map[common.Hash]bool
-	ids    map[string]int
-	refEnd string
-	failed bool
+	c           *hx.Ctx
+	cs          c09case
+	w           *chainfx.World
+	attach      bool
+	vkey        int
+	ops         []*vop
+	known       map[common.Hash]*types.Block
+	target      []*types.Block // chain of the never-crashed replica (by height order)
+	onTgt       map[common.Hash]bool
+	ids         map[string]int
+	refEnd      string
+	failed      bool
+	fullSyncAlt bool
+	resetIdx    int
+	curHole     int
+	ref         *chainfx.Node
 }
 
 func (s *scen) id(b []byte) int {
@@ -97,7 +104,11 @@ func (s *scen) fail(sig, detail string, op, cut int, class string) {
 	if op >= 0 && op < len(s.ops) {
 		what = s.ops[op].descr
 	}
-	s.c.Fail(sig, detail, c09case{Seed: s.cs.Seed, Kind: s.cs.Kind, Op: op, Cut: cut, Class: class, What: what})
+	if s.curHole > 0 && cut >= 0 {
+		detail = "[" + sig + " on a database whose canonical hash " + fmt.Sprint(s.curHole-1) + " below the head was deleted] " + detail
+		sig = "C09:canon-hole:legacy-db-not-healed"
+	}
+	s.c.Fail(sig, detail, c09case{Seed: s.cs.Seed, Kind: s.cs.Kind, Op: op, Cut: cut, Class: class, What: what, Hole: s.curHole})
 }
 
 // compress maps secondary-index classes to `sec` (the model takes their number as a parameter).
@@ -318,7 +329,8 @@ func buildStream(cs c09case, quick bool) (*stream, error) {
 		}
 		st.ref = n2
 		// ops: main..., reset, fork...; swept: reset + all fork blocks
-		st.window = [2]int{len(st.main), len(st.main) + 1 + len(st.fork)}
+		// (the last common block and the abandoned branch are swept too: their continuation includes the fork switch)
+		st.window = [2]int{st.common - 1, len(st.main) + 1 + len(st.fork)}
 	case "fastsync":
 		h, err := chainfx.Bootstrap(w, chainfx.HistoryOpts{TxPerBlock: 5}, r, false)
 		if err != nil {
@@ -375,8 +387,8 @@ func (s *scen) insLine(b *types.Block, diff, prelim bool, ev []crashdb.Event) st
 		}
 		return 0
 	}
-	return fmt.Sprintf("ins %d %d %d %d %d %d %d %d %d", b.Height(), s.hid(b.Hash()), s.hid(b.Header.ParentHash()), s.hid(b.Root()), s.hid(b.IdentityRoot()),
-		bi(diff), bi(prelim), sec1, sec2)
+	return fmt.Sprintf("ins %d %d %d %d %d %d %d %d", b.Height(), s.hid(b.Hash()), s.hid(b.Header.ParentHash()), s.hid(b.Root()), s.hid(b.IdentityRoot()),
+		bi(diff), sec1, sec2)
 }
 
 // runOp executes one operation on a node whose database is wrapped by cdb and returns the recorded events.
@@ -449,12 +461,32 @@ func (s *scen) restart(store *dbm.MemDB) restarted {
 }
 
 // plan: the operations a restarted node still has to perform to reach the never-crashed replica's end state.
-func (s *scen) plan(n *chainfx.Node) []int {
+func (s *scen) plan(n *chainfx.Node, i int) []int {
 	var p []int
 	head := n.Chain.Head
+	if s.resetIdx >= 0 && i < s.resetIdx {
+		// crashed before the fork switch: the node gets what the never-crashed replica got from here on —
+		// the rest of the first branch, then ResetTo + the longer fork
+		for j := i; j < len(s.ops); j++ {
+			o := s.ops[j]
+			if j < s.resetIdx && o.kind == "ins" && o.blk.Height() <= head.Height() {
+				continue
+			}
+			p = append(p, j)
+		}
+		return p
+	}
 	if s.onTgt[head.Hash()] {
 		for j, o := range s.ops {
-			if o.kind == "ins" && s.onTgt[o.blk.Hash()] && o.blk.Height() > head.Height() {
+			switch {
+			case o.kind == "fsync" && o.fs.headers[len(o.fs.headers)-1].Height() > head.Height():
+				// a node below the snapshot height either resumes the fast sync or (alternate cuts) syncs block by block
+				if s.fullSyncAlt {
+					p = append(p, o.fs.declared...)
+				} else {
+					p = append(p, j)
+				}
+			case o.kind == "ins" && !o.declOnly && s.onTgt[o.blk.Hash()] && o.blk.Height() > head.Height():
 				p = append(p, j)
 			}
 		}
@@ -504,7 +536,7 @@ func (s *scen) cutPoints(o *vop, quick bool, r *rand.Rand) []int {
 }
 
 func runScenario(c *hx.Ctx, cs c09case) error {
-	quick := c.Tier == "quick"
+	quick := c.Tier != "thorough"
 	defer os.RemoveAll("./testdata")
 	defer os.RemoveAll("./testdata2")
 	st, err := buildStream(cs, quick)
@@ -531,6 +563,8 @@ func runScenario(c *hx.Ctx, cs c09case) error {
 		s.onTgt[b.Hash()] = true
 	}
 	s.refEnd = endState(st.ref)
+	s.resetIdx = -1
+	s.ref = st.ref
 
 	// victim replica over a recording database
 	under := dbm.NewMemDB()
@@ -550,6 +584,7 @@ func runScenario(c *hx.Ctx, cs c09case) error {
 		for _, b := range st.main {
 			s.ops = append(s.ops, &vop{kind: "ins", blk: b})
 		}
+		s.resetIdx = len(s.ops)
 		s.ops = append(s.ops, &vop{kind: "reset", resetTo: st.main[st.common-1].Height()})
 		for _, b := range st.fork {
 			s.ops = append(s.ops, &vop{kind: "ins", blk: b})
@@ -565,12 +600,23 @@ func runScenario(c *hx.Ctx, cs c09case) error {
 		for _, b := range st.main[st.fsAt+1:] {
 			s.ops = append(s.ops, &vop{kind: "ins", blk: b})
 		}
+		// block-by-block alternative for a node that restarts below the snapshot height (continuations only)
+		for _, b := range st.main[pre : st.fsAt+1] {
+			s.ops[pre].fs.declared = append(s.ops[pre].fs.declared, len(s.ops))
+			s.ops = append(s.ops, &vop{kind: "ins", blk: b, declOnly: true})
+		}
 	default:
 		for _, b := range st.main {
 			s.ops = append(s.ops, &vop{kind: "ins", blk: b})
 		}
 	}
 	for i, o := range s.ops {
+		if o.declOnly {
+			o.descr = fmt.Sprintf("AddBlock height %d (%s)", o.blk.Height(), blockKind(o.blk))
+			diff := st.ref.Chain.GetIdentityDiff(o.blk.Height())
+			c.Line("decl "+s.insLine(o.blk, diff != nil && !diff.Empty(), false, nil), "ok")
+			continue
+		}
 		o.swept = i >= st.window[0] && i < st.window[1] && (cs.Op < 0 || cs.Op == i)
 		o.h0 = V.Chain.Head.Height()
 		switch o.kind {
@@ -632,29 +678,118 @@ func runScenario(c *hx.Ctx, cs c09case) error {
 			if k > len(o.events) {
 				continue
 			}
-			s.oneCut(i, o, k)
-			c.Rep.Evaluations++
+			if cs.Cut < 0 || cs.Hole == 0 {
+				s.oneCut(i, o, k, 0)
+				c.Rep.Evaluations++
+			}
+			// legacy databases: at the operation boundary also with a canonical-hash hole at / below the head
+			if k == len(o.events) && o.kind == "ins" {
+				for hole := 1; hole <= 2; hole++ {
+					if cs.Cut < 0 || cs.Hole == hole {
+						s.oneCut(i, o, k, hole)
+						c.Rep.Evaluations++
+					}
+				}
+			}
 		}
 		sw, _ := c.Rep.Coverage["swept"].([]interface{})
 		c.Rep.Coverage["swept"] = append(sw, map[string]interface{}{"seed": cs.Seed, "kind": cs.Kind, "op": i, "what": o.descr,
 			"write_events": len(o.events), "cut_points": len(cuts), "exhaustive": exhaustive})
+	}
+	// cross-check of the replay mode against in-place write dropping (the probe's mode): a second victim follows the
+	// same operations, all writes after the k-th write of one operation are dropped, the surviving stores must be equal
+	if cs.Cut < 0 {
+		var cand []int
+		for i, o := range s.ops {
+			if o.swept && o.kind != "fsync" && len(o.events) > 0 {
+				cand = append(cand, i)
+			}
+		}
+		if len(cand) > 0 {
+			i := cand[r.Intn(len(cand))]
+			k := r.Intn(len(s.ops[i].events) + 1)
+			if err := s.dropCheck(i, k); err != nil {
+				return err
+			}
+			c.Hit("replay-vs-drop-crosscheck")
+		}
+	}
+	for _, o := range s.ops {
 		o.base = nil
 	}
 	return nil
 }
 
-func (s *scen) oneCut(i int, o *vop, k int) {
+func (s *scen) dropCheck(i, k int) error {
+	under := dbm.NewMemDB()
+	cdb := crashdb.New(under)
+	V, err := s.w.StartNode(cdb, s.vkey, s.attach)
+	if err != nil {
+		return fmt.Errorf("cross-check victim start: %v", err)
+	}
+	for j, o := range s.ops {
+		if o.declOnly {
+			continue
+		}
+		if j == i {
+			cdb.CutAfter(k)
+		}
+		func() {
+			defer func() { recover() }()
+			s.runOp(V, cdb, o)
+		}()
+		if j == i {
+			break
+		}
+	}
+	want := crashdb.Snapshot(s.ops[i].base)
+	crashdb.Apply(want, s.ops[i].events[:k])
+	if ok, where := crashdb.Equal(under, want, crashdb.IsEpochDbKey); !ok {
+		return fmt.Errorf("fixture: store after dropping all writes behind write %d of %s differs from the replayed store at key %s", k, s.ops[i].descr, where)
+	}
+	return nil
+}
+
+// deleteCanon removes the canonical-hash record `off` heights below the head record of a store (database/repository.go
+// headerHashKey: "h" + height (8 bytes big endian) + "n"); false when there is no such height above genesis.
+func deleteCanon(store *dbm.MemDB, off uint64) bool {
+	raw, _ := store.Get([]byte("LastBlock"))
+	h := new(types.Header)
+	if raw == nil || h.FromBytes(raw) != nil || h.Height() < off+2 {
+		return false
+	}
+	key := append([]byte("h"), make([]byte, 8)...)
+	binary.BigEndian.PutUint64(key[1:], h.Height()-off)
+	key = append(key, 'n')
+	if ok, _ := store.Has(key); !ok {
+		return false
+	}
+	store.Delete(key)
+	return true
+}
+
+func (s *scen) oneCut(i int, o *vop, k int, hole int) {
 	c := s.c
 	class := "end-of-operation"
 	if k < len(o.events) {
 		class = o.events[k].Class
 	}
-	c.Hit("cut-at:" + strings.SplitN(class, ":", 2)[0])
-	c.Distinct(fmt.Sprintf("%d/%s/%d/%d", s.cs.Seed, s.cs.Kind, i, k))
 	store := crashdb.Snapshot(o.base)
 	crashdb.Apply(store, o.events[:k])
-	rs := s.restart(store)
 	cutOp := fmt.Sprintf("cut %d %d", i, k)
+	s.curHole = hole
+	defer func() { s.curHole = 0 }()
+	if hole > 0 {
+		if !deleteCanon(store, uint64(hole-1)) {
+			return
+		}
+		class = fmt.Sprintf("end-of-operation+canonical-hash-of-head-%d-deleted", hole-1)
+		cutOp = fmt.Sprintf("cuth %d %d %d", i, k, hole-1)
+		c.Hit(fmt.Sprintf("legacy-hole:head-%d", hole-1))
+	}
+	c.Hit("cut-at:" + strings.SplitN(class, ":", 2)[0])
+	c.Distinct(fmt.Sprintf("%d/%s/%d/%d/%d", s.cs.Seed, s.cs.Kind, i, k, hole))
+	rs := s.restart(store)
 	if rs.err != nil {
 		c.Line(cutOp, "err")
 		s.fail("C09:startup-failed", fmt.Sprintf("%s cut after %d of %d writes (next write: %s): start-up on the surviving database failed: %v",
@@ -662,6 +797,7 @@ func (s *scen) oneCut(i int, o *vop, k int) {
 		return
 	}
 	n := rs.n
+	defer n.Chain.C09Release()
 	head := n.Chain.Head
 	rootsOK := head.Root() == n.App.State.Root() && head.IdentityRoot() == n.App.IdentityState.Root()
 	c.Line(cutOp, fmt.Sprintf("ok head=%d:%d sv=%d iv=%d match=%v w=%s", head.Height(), s.hid(head.Hash()), n.App.State.Version(), n.App.IdentityState.Version(),
@@ -687,6 +823,9 @@ func (s *scen) oneCut(i int, o *vop, k int) {
 		if n.Chain.FxRepo().ReadCanonicalHash(head.Height()) != head.Hash() {
 			c.Hit("observation:head-without-canonical-hash")
 		}
+		if d := s.refDiff(head.Height()); d && n.Chain.FxRepo().ReadIdentityStateDiff(head.Height()) == nil {
+			c.Hit("observation:head-without-identity-diff")
+		}
 		if hb, ok := s.known[head.Hash()]; ok {
 			for _, tx := range hb.Body.Transactions {
 				if n.Chain.GetTxIndex(tx.Hash()) == nil {
@@ -697,7 +836,7 @@ func (s *scen) oneCut(i int, o *vop, k int) {
 		}
 	}
 	// clean restart at the operation boundary changes nothing observable
-	if k == len(o.events) {
+	if k == len(o.events) && hole == 0 {
 		if got := observe(n, s.w); got != o.post {
 			s.fail("C09:clean-restart-changed", fmt.Sprintf("%s: restart after the complete operation changed observables:\n live   %s\n restart %s", o.descr, o.post, got), i, k, class)
 			return
@@ -705,16 +844,41 @@ func (s *scen) oneCut(i int, o *vop, k int) {
 		c.Hit("clean-restart-checked")
 	}
 	// continue with the same next blocks
-	plan := s.plan(n)
+	s.fullSyncAlt = k%2 == 1
+	plan := s.plan(n, i)
 	var ws []string
 	contOp := fmt.Sprintf("cont %d %d", i, k)
+	if hole > 0 {
+		contOp = fmt.Sprintf("conth %d %d %d", i, k, hole-1)
+	}
+	modelled := true // the model does not cover the resumption of an interrupted fast sync (oracle only)
 	for _, j := range plan {
 		contOp += fmt.Sprint(" ", j)
+		if s.ops[j].kind == "fsync" {
+			modelled = false
+		}
 	}
+	line := func(op, ans string) {
+		if modelled {
+			c.Line(op, ans)
+		} else {
+			c.Hit("continuation-not-modelled:fast-sync-resume")
+		}
+	}
+	holeAtResetTarget := false
 	for _, j := range plan {
+		if s.ops[j].kind == "reset" {
+			holeAtResetTarget = n.Chain.FxRepo().ReadCanonicalHash(s.ops[j].resetTo) == (common.Hash{})
+		}
 		ev, err := s.runOp(n, rs.cdb, s.ops[j])
+		if err != nil && holeAtResetTarget {
+			line(contOp, fmt.Sprintf("err@%d", j))
+			s.fail("C09:canon-hole:fork-switch-fails", fmt.Sprintf("%s cut after %d of %d writes (next write: %s): the node restarted consistently at height %d but without a canonical-hash entry for it; later, when the never-crashed replica switched to the longer fork (ResetTo %d + fork blocks), this node's ResetTo returned no error yet left its head at height %d above the truncated state (SetHead found no canonical hash), and %s failed: %v",
+				o.descr, k, len(o.events), class, head.Height(), s.ops[s.resetIdx].resetTo, n.Chain.Head.Height(), s.ops[j].descr, firstLine(err.Error())), i, k, class)
+			return
+		}
 		if err != nil {
-			c.Line(contOp, fmt.Sprintf("err@%d", j))
+			line(contOp, fmt.Sprintf("err@%d", j))
 			s.fail("C09:continue-rejected", fmt.Sprintf("%s cut after %d of %d writes (next write: %s): node restarted at height %d, then %s failed: %v",
 				o.descr, k, len(o.events), class, head.Height(), s.ops[j].descr, firstLine(err.Error())), i, k, class)
 			return
@@ -722,11 +886,17 @@ func (s *scen) oneCut(i int, o *vop, k int) {
 		ws = append(ws, joinOrDash(primaryClasses(ev)))
 	}
 	eh := n.Chain.Head
-	c.Line(contOp, fmt.Sprintf("end head=%d:%d sv=%d iv=%d w=%s", eh.Height(), s.hid(eh.Hash()), n.App.State.Version(), n.App.IdentityState.Version(), strings.Join(ws, "|")))
+	line(contOp, fmt.Sprintf("end head=%d:%d sv=%d iv=%d w=%s", eh.Height(), s.hid(eh.Hash()), n.App.State.Version(), n.App.IdentityState.Version(), strings.Join(ws, "|")))
 	if got := endState(n); got != s.refEnd {
 		s.fail("C09:end-differs", fmt.Sprintf("%s cut after %d of %d writes (next write: %s): after continuing with the same blocks the node is at %s, the never-crashed replica at %s",
 			o.descr, k, len(o.events), class, got, s.refEnd), i, k, class)
 	}
+}
+
+// refDiff: does the reference node hold a non-empty identity diff for the height (on the target chain)?
+func (s *scen) refDiff(h uint64) bool {
+	d := s.ref.Chain.GetIdentityDiff(h)
+	return d != nil && !d.Empty()
 }
 
 func firstLine(s string) string {
@@ -753,7 +923,10 @@ func init() {
 		}
 		c.Rep.Rule = "scenarios = real chain histories followed by a victim replica over a crash-injecting database; kinds: mixed (plain / identity-update / snapshot-flag blocks with all ordinary tx kinds), epoch (validation ceremony, the epoch-finishing block and its neighbours), retention (>100 blocks: tree-version pruning batches), fork (ResetTo + re-apply of a longer fork), fastsync (preliminary identity state, header chain, snapshot import, AtomicSwitchToPreliminary, clearing of the old trees); every write event of the swept operations is a cut point (thorough: all; quick: all class boundaries + sample); per cut: real start-up on the surviving store, model comparison, continuation with the same next blocks, end-state comparison; distinct = (scenario, operation, cut index)"
 		kinds := []string{"mixed", "fork", "epoch", "retention", "fastsync", "mixed", "fork"}
-		n := c.Scale(7, 60)
+		n := c.Scale(28, 70)
+		if c.Tier == "search" {
+			n = 42 // other seeds, same cut policy as quick (a scenario costs ~1 s; ten times quick is not needed to find a cut)
+		}
 		for i := 0; i < n; i++ {
 			cs := c09case{Seed: c.Seed*1000 + int64(i), Kind: kinds[i%len(kinds)], Op: -1, Cut: -1, All: c.Tier == "thorough"}
 			if err := runScenario(c, cs); err != nil {
